@@ -129,6 +129,7 @@ package mux
 //@   abstract frameDimensions
 //@   ensures result == nil ==> le32at(old(wlen())) == FourCCANMF
 //@   ensures result == nil ==> wlen() - old(wlen()) == 8 + int(padded(le32at(old(wlen()) + 4)))
+//@   ensures result == nil ==> forall k int :: 0 <= k && k < old(wlen()) ==> wlog(k) == old(wlog(k))
 //
 //@ func (m *Muxer) assembleSimple
 //@   property C14 C02
@@ -147,3 +148,61 @@ package mux
 //@ func (m *Muxer) NumFrames
 //@   property C05
 //@   requires m != nil
+//
+// ---- C16: the header parsers of the two container readers agree ----
+//
+// On any byte string, whenever the stricter parser of internal/container
+// accepts a bitstream header, the demuxer's parser accepts it too and both
+// return the same dimensions (and alpha flag).
+//@ lemma vp8HeaderParsersAgree(data []byte)
+//@   property C16
+//@   ensures container.parseVP8Header(data).2 == nil ==> parseVP8Dimensions(data).2 == nil
+//@   ensures container.parseVP8Header(data).2 == nil ==> parseVP8Dimensions(data).0 == container.parseVP8Header(data).0 && parseVP8Dimensions(data).1 == container.parseVP8Header(data).1
+//
+//@ lemma vp8lHeaderParsersAgree(data []byte)
+//@   property C16
+//@   ensures container.parseVP8LHeader(data).3 == nil ==> parseVP8LDimensions(data).3 == nil
+//@   ensures container.parseVP8LHeader(data).3 == nil ==> parseVP8LDimensions(data).0 == container.parseVP8LHeader(data).0 && parseVP8LDimensions(data).1 == container.parseVP8LHeader(data).1
+//@   ensures container.parseVP8LHeader(data).3 == nil ==> (parseVP8LDimensions(data).2 <==> container.parseVP8LHeader(data).2)
+//
+//@ lemma frameAlphaFlagAgrees(data []byte)
+//@   property C16
+//@   ensures container.parseVP8LHeader(data).3 == nil ==> (frameDataHasAlpha(data) <==> container.parseVP8LHeader(data).2)
+//
+// ---- C14 / C15 / C02: the extended (VP8X) file header written by the muxer ----
+//
+// Pure observers of the muxer (verified: they modify nothing).
+//@ func (m *Muxer) isAnimated
+//@   property C14 C05
+//@   requires m != nil
+//@   modifies nothing
+//
+//@ func (m *Muxer) hasAlpha
+//@   property C14 C05
+//@   requires m != nil
+//@   modifies nothing
+//
+//@ func (m *Muxer) canvasSize
+//@   property C14 C05
+//@   requires m != nil
+//@   modifies nothing
+//
+// RIFF/WEBP signature, the VP8X chunk with its fixed size, a flags byte that
+// announces exactly the metadata blobs that are present (and the animation
+// bit), zero reserved bytes, and the canvas size minus one in 24 bits.
+//@ func (m *Muxer) assembleExtended
+//@   property C14 C15 C02
+//@   requires m != nil && w != nil
+//@   requires len(m.iccData) <= 0x7fffffff && len(m.exifData) <= 0x7fffffff && len(m.xmpData) <= 0x7fffffff
+//@   requires forall j int :: 0 <= j && j < len(m.frames) ==> len(m.frames[j].data) <= 0x3fffffff
+//@   modifies nothing
+//@   loop 1: invariant wlen() >= old(wlen()) + 30
+//@   loop 1: invariant le32at(old(wlen())) == FourCCRIFF && le32at(old(wlen()) + 8) == FourCCWEBP && le32at(old(wlen()) + 12) == FourCCVP8X && le32at(old(wlen()) + 16) == 10
+//@   loop 1: invariant wlog(old(wlen()) + 20) == flags && wlog(old(wlen()) + 21) == 0 && wlog(old(wlen()) + 22) == 0 && wlog(old(wlen()) + 23) == 0
+//@   loop 1: invariant int(wlog(old(wlen()) + 24)) | int(wlog(old(wlen()) + 25))<<8 | int(wlog(old(wlen()) + 26))<<16 == (canvasW-1) & 0xffffff
+//@   loop 1: invariant int(wlog(old(wlen()) + 27)) | int(wlog(old(wlen()) + 28))<<8 | int(wlog(old(wlen()) + 29))<<16 == (canvasH-1) & 0xffffff
+//@   ensures result == nil ==> le32at(old(wlen())) == FourCCRIFF && le32at(old(wlen()) + 8) == FourCCWEBP && le32at(old(wlen()) + 12) == FourCCVP8X && le32at(old(wlen()) + 16) == 10
+//@   ensures result == nil ==> wlog(old(wlen()) + 20) == flags && wlog(old(wlen()) + 21) == 0 && wlog(old(wlen()) + 22) == 0 && wlog(old(wlen()) + 23) == 0
+//@   ensures (flags & 0x20 != 0 <==> m.iccData != nil) && (flags & 0x08 != 0 <==> m.exifData != nil) && (flags & 0x04 != 0 <==> m.xmpData != nil) && (flags & 0x02 != 0 <==> animated) && flags & 0xc1 == 0
+//@   ensures result == nil ==> int(wlog(old(wlen()) + 24)) | int(wlog(old(wlen()) + 25))<<8 | int(wlog(old(wlen()) + 26))<<16 == (canvasW-1) & 0xffffff
+//@   ensures result == nil ==> int(wlog(old(wlen()) + 27)) | int(wlog(old(wlen()) + 28))<<8 | int(wlog(old(wlen()) + 29))<<16 == (canvasH-1) & 0xffffff
